@@ -26,7 +26,7 @@ type bytesIn struct {
 // genImage draws a byte string that has a fair chance of being accepted by the message decoder.
 func genImage(t *rapid.T) bytesIn {
 	m := gen.Message(t, gen.Opts{MaxPayloads: 6, NoBig: true})
-	switch gen.Pick(t, "imageclass", 3, 3, 8, 1, 4, 3) {
+	switch gen.Pick(t, "imageclass", 3, 3, 8, 1, 4, 3, 2) {
 	case 0:
 		// canonical: zero liberties, transforms in ascending type order
 		m = m.Normalize()
@@ -58,6 +58,22 @@ func genImage(t *rapid.T) bytesIn {
 		return bytesIn{W: mw, Origin: "mutated:" + fmt.Sprint(classes)}
 	case 3:
 		return bytesIn{W: gen.RawBytes(t, "raw", 400), Origin: "raw"}
+	case 6:
+		// a message carrying an EAP-AKA' packet with several attributes the decoder has no special case for
+		types := rapid.Permutation([]byte{4, 12, 14, 22, 129, 130, 133, 135, 136}).Draw(t, "gaka.types")
+		pkt := []byte{1, 7, 0, 0, 50, 1, 0, 0}
+		for _, ty := range types[:rapid.IntRange(2, 5).Draw(t, "gaka.n")] {
+			words := rapid.IntRange(1, 6).Draw(t, "gaka.words")
+			pkt = append(append(pkt, ty, byte(words)), rapid.SliceOfN(rapid.Byte(), 4*words-2, 4*words-2).Draw(t, "gaka.body")...)
+		}
+		pkt[2], pkt[3] = byte(len(pkt)>>8), byte(len(pkt))
+		ps := gen.Payloads(t, gen.Opts{MaxPayloads: 2, NoBig: true})
+		ps = append(ps, model.Payload{Kind: model.KRaw, Raw: &model.Raw{Type: 48, Body: pkt}})
+		w, err := ref.EncodeMessage(model.Message{Header: m.Header, Payloads: ps}, nil)
+		if err != nil {
+			panic(err)
+		}
+		return bytesIn{W: w, Origin: "aka-generic-attributes"}
 	case 5:
 		// domain payloads mixed with Encrypted payloads (anywhere in the chain) and unsupported non-critical ones
 		ps := gen.Payloads(t, gen.Opts{MaxPayloads: 3, NoBig: true})
@@ -165,7 +181,20 @@ func genEAPImage(t *rapid.T) bytesIn {
 	if err != nil {
 		panic(err)
 	}
-	switch gen.Pick(t, "imageclass", 2, 6, 1) {
+	switch gen.Pick(t, "imageclass", 4, 12, 2, 1) {
+	case 3:
+		// a large AKA' packet made of attributes the decoder has no special case for (AT_IDENTITY, AT_IV, AT_ENCR_DATA, ...),
+		// several kilo-octets long (crosses internal buffer sizes)
+		types := rapid.Permutation([]byte{4, 12, 14, 22, 129, 130, 133, 134, 135, 136}).Draw(t, "bigaka.types")
+		n := rapid.IntRange(3, len(types)).Draw(t, "bigaka.n")
+		pkt := []byte{1, e.Identifier, 0, 0, 50, 1, 0, 0}
+		for _, ty := range types[:n] {
+			words := rapid.SampledFrom([]int{1, 2, 6, 64, 128, 200, 254, 255}).Draw(t, "bigaka.words")
+			body := gen.Fill(t, "bigaka.body", 4*words-2)
+			pkt = append(append(pkt, ty, byte(words)), body...)
+		}
+		pkt[2], pkt[3] = byte(len(pkt)>>8), byte(len(pkt))
+		return bytesIn{W: pkt, Origin: "big-aka-generic-attributes"}
 	case 0:
 		return bytesIn{W: w, Origin: "canonical"}
 	case 1:
